@@ -1,5 +1,6 @@
 import Feox.Drv.Fsm
 import Feox.Drv.Fmt
+import Feox.Drv.Kv
 /-! `feoxdrv` — the Lean side of the correspondence check: reads one operation per line on
 stdin, runs the executable models, prints one answer line per input line.  Imports models
 only (no Mathlib, no proof files), so it links as a native executable. -/
@@ -7,12 +8,17 @@ open Feox
 
 structure Drv where
   fsm : Fsm.State := {}
+  kv : Kv.State := {}
 
 def stepLine (d : Drv) (line : String) : IO (Drv × String) := do
   match (line.trimAscii.toString.splitOn " ").filter (· ≠ "") with
   | "fsm" :: rest =>
     match Drv.FsmDrv.handle d.fsm rest with
     | some (s, out) => pure ({ d with fsm := s }, out)
+    | none => pure (d, "bad-op")
+  | "kv" :: rest =>
+    match Drv.KvDrv.handle d.kv rest with
+    | some (s, out) => pure ({ d with kv := s }, out)
     | none => pure (d, "bad-op")
   | "fmt" :: rest =>
     match ← Drv.FmtDrv.handleIO rest with
